@@ -499,7 +499,7 @@ class Fn2(c2lean.Fn):
         callee = self.tr.done.get(cn)
         if callee is None:
             raise Unsupported(f"call to {cn}, which is not translated")
-        texts, outs, wshift = [], [], []
+        texts, outs, wshift, struct_pass = [], [], [], []
         if getattr(callee, "uses_fuel", False):
             texts.append("fuel")
         for a, prm in zip(args, callee.params):
@@ -531,13 +531,18 @@ class Fn2(c2lean.Fn):
                     texts.append(f"(fun i => rdw {buf}0 {self.wexpr(env, buf)} ({off} + i))")
                 wshift.append(a.ptr)
             elif nm in callee.struct_fields:
-                raise Unsupported(f"struct argument in a call to {cn}")
+                # this function's own struct out-parameter handed on to the callee's struct out-parameter
+                if not a.s or a.s not in self.struct_fields or callee.struct_fields[nm]:
+                    raise Unsupported(f"struct argument in a call to {cn}")
+                if nm in getattr(callee, "given", []):
+                    if a.s not in self.given:
+                        self.given.append(a.s)
+                    texts.append(f"{lname(a.s)}_given")
+                struct_pass.append((nm, a.s))
             elif pty.kind == "ptr":
                 raise Unsupported("pointer argument of unknown role")
             else:
                 texts.append(self.conv(a, pty).s)
-        for sn in getattr(callee, "given", []):
-            raise Unsupported(f"struct argument in a call to {cn}")
         call = f"({callee.lean_name} {' '.join(texts)})" if texts else f"{callee.lean_name}"
         nouts = len(callee.out_keys()) if isinstance(callee, Fn2) else len(callee.out_params)
         ncomp = (1 if callee.ret.kind != "void" else 0) + nouts + len(callee.write_bufs)
@@ -568,6 +573,19 @@ class Fn2(c2lean.Fn):
             nm2 = env.fresh(local, lty(cur.ty))
             env.prelets.append(f"let {nm2} := (({proj(base + j)}).getD {cur.s})")
             env.vars[local] = V(nm2, cur.ty)
+        for cnm, own in struct_pass:
+            keys = callee.out_keys()
+            for fld in callee.struct_outs.get(cnm, []):
+                idx = keys.index(f"{cnm}.{fld}")
+                self.struct_outs.setdefault(own, [])
+                if fld not in self.struct_outs[own]:
+                    self.struct_outs[own].append(fld)
+                key = f"{own}.{fld}"
+                prev = env.outs.get(key)
+                prev_t = "none" if prev is None else (prev[1:] if prev.startswith("?") else f"some {prev}")
+                nm2 = env.fresh(f"{own}_{fld}_opt", "Option Nat")
+                env.prelets.append(f"let {nm2} := (({proj(base + idx)}).orElse fun _ => {prev_t})")
+                env.outs[key] = "?" + nm2
         for j, (buf, off) in enumerate(wshift):
             w = env.writes.setdefault(buf, W())
             cur = w.expr()
@@ -1368,6 +1386,7 @@ TARGETS2 = {
         ("varintRLE.c", "varintRLEAnalyze", "rleAnalyze"),
         ("varintRLE.c", "varintRLEEncode", "rleEncode"),
         ("varintRLE.c", "varintRLEGetRunCount", "rleGetRunCount"),
+        ("varintRLE.c", "varintRLEEncodeWithHeader", "rleEncodeWithHeader"),
     ],
     "CRLEDec": [
         ("import", "CTagged", TAGGED_IMPORTS),
